@@ -250,7 +250,7 @@ PROPS = {
         "invariants": ["C03.canary", "C03.kid", "C03.namespace", "C03.jwk-header"],
         "assumptions": ["only the file-system key store backend runs (Vault and Azure backends need their servers)",
                         "a key leaked in a transformed form that is none of the searched encodings (e.g. encrypted, split, or re-encoded with another alphabet) is not seen"],
-        "probes_expected": ["signature-verified-with-published-key", "private-jwk-header-refused"],
+        "probes_expected": ["signature-verified-with-published-key", "private-jwk-header-refused", "private-jwk-object-refused", "unknown-key-ids-refused"],
         "quick": {"budget_s": 75, "chunk": 6, "chunk_timeout_s": 1200},
         "thorough": {"budget_s": 900, "chunk": 6, "minimise_s": 120, "chunk_timeout_s": 2400},
     },
